@@ -64,3 +64,26 @@ func Dial(network, addr string) (net.Conn, error) {
 		time.Sleep(500 * time.Millisecond)
 	}
 }
+
+// HoldPort binds a TCP socket to addr ("ip:port") without listening on it: connections to the address are refused, and
+// no other process can be given the port meanwhile. (A harness that plays "this upstream is down" by closing its
+// listener would otherwise hand the port back to the kernel, which may give it to a listener of another test process;
+// the code under test would then reach a stranger.) Release with the returned function.
+func HoldPort(addr string) (release func(), err error) {
+	ta, err := net.ResolveTCPAddr("tcp4", addr)
+	if err != nil {
+		return nil, err
+	}
+	fd, err := syscall.Socket(syscall.AF_INET, syscall.SOCK_STREAM|syscall.SOCK_CLOEXEC, 0)
+	if err != nil {
+		return nil, err
+	}
+	_ = syscall.SetsockoptInt(fd, syscall.SOL_SOCKET, syscall.SO_REUSEADDR, 1)
+	sa := &syscall.SockaddrInet4{Port: ta.Port}
+	copy(sa.Addr[:], ta.IP.To4())
+	if err := syscall.Bind(fd, sa); err != nil {
+		_ = syscall.Close(fd)
+		return nil, err
+	}
+	return func() { _ = syscall.Close(fd) }, nil
+}
